@@ -389,7 +389,7 @@ pub struct Proposal {
     pub threshold: Option<f64>,
 }
 
-#[derive(Clone, Debug)]
+#[derive(Clone, Debug, Default)]
 pub struct Obs {
     pub initial: Option<(Vec<f64>, Option<f64>)>,
     pub proposals: Vec<Proposal>,
@@ -480,7 +480,13 @@ pub fn run_script(cfg: &Cfg, spec: &ProbeSpec, script: &[StepScript]) -> Obs {
         }
         Err(p) => obs.panic = Some(panic_text(p)),
     }
-    // fold the event stream into proposals
+    fold_events(&mut obs, events);
+    obs
+}
+
+/// Fold a stream of score() calls and tagged draws into proposals: a proposal is a score() call
+/// that follows a displacement draw; the acceptance draw that follows it is its threshold.
+pub fn fold_events(obs: &mut Obs, events: Vec<Event>) {
     let mut pend_index: Option<u64> = None;
     let mut pend_delta: Option<u64> = None;
     for ev in events.into_iter() {
@@ -513,7 +519,6 @@ pub fn run_script(cfg: &Cfg, spec: &ProbeSpec, script: &[StepScript]) -> Obs {
             }
         }
     }
-    obs
 }
 
 // ------------------------------------------------------------------------------------------
